@@ -66,6 +66,48 @@ def stub_correspondence(ctx, n_cases: int) -> None:
                                 "C08.merge_track no longer speaks about this code"}, found_input=False)
 
 
+def run_arrivals_correspondence(ctx, prop: str, n_cases: int) -> None:
+    """what `transfer_maps_merged` sends into the items it does not merge (recorded by wrapping their `track`) vs the Lean
+    model `Lat.arrivals` on integer stubs — the theorem `arrivals_spec` says these are the beams of element-by-element tracking"""
+    rep, rng = ctx.report, ctx.rng
+    drv = LeanDriver()
+    pend = []
+    for _ in range(n_cases):
+        case = ST.Case(rng, max_depth=1)
+        st, tr = case.stub_tokens(), case.tree_tokens()
+        names = case.top_names()
+        k = int(rng.integers(0, min(3, len(names)) + 1))
+        keeps = [int(x) for x in rng.choice(names, size=k, replace=False)] if k else []
+        kt = f"{len(keeps)} " + " ".join(str(x) for x in keeps)
+        pb, pbt = ST.rand_pbeam(rng)
+        mb, mbt = ST.rand_mbeam(rng)
+        for op, b, bt, show in (("arrP", pb, pbt, ST.show_pbeam), ("arrM", mb, mbt, ST.show_mbeam)):
+            seg = case.build()
+            seen: list = []
+            for it in seg.elements:
+                if (not it.is_skippable) or str(it.name) in [str(x) for x in keeps]:
+                    def rec(incoming, _orig=it.track, _show=show):
+                        seen.append(_show(incoming))
+                        return _orig(incoming)
+                    it.track = rec
+            seg.transfer_maps_merged(b, except_for=[str(x) for x in keeps])
+            pend.append((op, {**case.describe(), "except_for": keeps}, drv.raw(f"lat {op} {st} {tr} {bt} {kt}"), "T " + " | ".join(seen)))
+    replies = drv.run()
+    for op, desc, idx, real in pend:
+        rep.corr_cases += 1
+        rep.count("stub:" + op)
+        rep.case(("stub", op, str(desc["tree"]), str(desc["except_for"])), None)
+        model = replies[idx]
+        model = model if isinstance(model, str) else "T " + " ".join(str(int(x)) for x in model)
+        if model.strip() != real.strip():
+            ctx.escalate = True
+            rep.fail("correspondence", f"{prop}|stub|{op}",
+                     "the beams Segment.transfer_maps_merged sends into the items it does not merge differ from the Lean model Lat.arrivals",
+                     {"kind": "stub", "op": op, "case": desc, "code": real[:600], "model": model[:600],
+                      "broken": "correspondence transfer_maps_merged (probe beam) <-> CheetahModel.Lattice.arrivals; theorem arrivals_spec"},
+                     found_input=False)
+
+
 # ------------------------------------------------------------------------------------------------
 def apply_transform(seg, name: str, b, except_for):
     if name == "merged":
@@ -320,6 +362,7 @@ def vector_probe(ctx, n: int) -> None:
 
 def run(ctx) -> None:
     stub_correspondence(ctx, ctx.n(80, 2000))
+    run_arrivals_correspondence(ctx, "C08", ctx.n(40, 1000))
     falsifier(ctx, ctx.n(40, 800))
     vector_probe(ctx, ctx.n(10, 250))
 
